@@ -140,7 +140,7 @@ def main():
     json.dump(m, open(os.path.join(V, "MANIFEST.json"), "w"), indent=1)
     open(os.path.join(V, "MANIFEST.json"), "a").write("\n")
 
-PENDING = {"C17"}   # machinery built; claimed once the proofs are in the tree
+PENDING = set()   # properties whose machinery is built but not yet claimed
 HOOK_COMMITS = ["3f989e6", "590f51d", "a066eba", "0b6d328", "fdfdd20", "4c10484"]
 if __name__ == "__main__":
     main()
